@@ -32,7 +32,7 @@ def requirements(tier):
     return {"min_counters": need,
             "required_classes": ["mut_append", "mut_insert", "mut_extend", "mut_iadd", "mut_imul", "mut_pop", "mut_remove", "mut_remove_wrapper",
                                  "mut_delitem", "mut_delslice", "mut_setitem", "mut_clear", "assign_live_list_of_other_object",
-                                 "grouped_links_to_same_target"]}
+                                 "grouped_links_to_same_target", "cross_new_system"]}
 
 
 def forward_links(E, objs):
@@ -305,10 +305,12 @@ def run_case(case):
                     up_ = E.UsagePattern(f"X_up{k_}", uj_, [dv_], nw_, ct_, E.create_source_hourly_values_from_list([3, 1, 4], __import__("datetime").datetime(2025, 1, 1)))
                     for o_ in (st_, uj_, nw_, up_) + ((dv_,) if variant != "device" else ()):
                         allobjs[o_.name] = o_
-                    m_ = rnd.choice(["append", "iadd", "assign"])
+                    m_ = rnd.choice(["append", "iadd", "assign", "new_system", "new_system"])
                     bs = objs_b["B_system"]
+                    classes.add("cross_" + m_)
                     if m_ == "append": bs.usage_patterns.append(up_)
                     elif m_ == "iadd": bs.usage_patterns += [up_]
+                    elif m_ == "new_system": E.System(f"X_sys{k_}", [up_])     # a third system built around the free pattern
                     else: bs.usage_patterns = list(bs.usage_patterns) + [up_]
                 elif kind == "job.server":
                     j = rnd.choice(pick("Job")); h.objs[j].server = objs_b["B_srv1"]
